@@ -11,7 +11,7 @@ CHECKS = {
     "C19": dict(
         text="Theorems (Coq, all capacities 2^k, all histories, all sequence numbers): the bit map refines a set of residues "
              "(last addressed op decides, frame, commutation of distinct residues, every word access in bounds). "
-             "Model tied to bit_map.rs by differential runs (exhaustive residue pairs for small capacities + random histories).",
+             "Model tied to bit_map.rs by differential runs (exhaustive residue pairs for small capacities + random histories), against the default build and a build with the crate feature unsafe.",
         note=LEVEL_NOTE_COMMON + "Axioms: none (Closed under the global context). Atomic RMWs modelled as whole-word updates; "
              "concurrency enters only through the commutation theorem.",
         technique="Coq proof (refinement to residue set by induction over histories) + model/implementation differential correspondence",
@@ -67,7 +67,7 @@ CHECKS = {
              "selected extra graph (all others stay EQUAL); with nothing selected every extra mutator fails without change and readers report nothing; set_current succeeds iff "
              "id <= count; add_new returns count+1; the two index maps are independent last-write-wins maps; every step refines an abstract context whose component graphs are C08's "
              "directed-graph spec (so lookups/relations are faithful), and the spec checker proved to accept the model is applied to the implementation's observed runs of ALL contexts. Bulk insertion "
-             "through the Context API has a closed form proved for EVERY n (Context/Bulk.v: base context, and a new extra context with the base staying empty): the oracle of the LARGE histories (up to 1.4*10^5 contextoids). The id of the Context itself (unrelated to the extra-context ids) is varied: 0, 1, ids equal to / above the number of extra contexts, 2^63+7.",
+             "through the Context API has a closed form proved for EVERY n (Context/Bulk.v: base context, and a new extra context with the base staying empty): the oracle of the LARGE histories (up to 1.4*10^5 contextoids). The id of the Context itself (unrelated to the extra-context ids) is varied: 0, 1, ids equal to / above the number of extra contexts, 2^63+7. A creation that panics (capacity overflow, caught) inside a history must answer no and change nothing.",
         note=LEVEL_NOTE_COMMON + "Axioms: none. Component graphs are C08's UltraGraph model; HashMaps as association lists; contextoids represented by their id.",
         technique="Coq proof (frame lemmas + refinement to abstract context, induction over histories) + differential correspondence + proved spec checker as oracle",
         design="§7 C09"),
@@ -76,7 +76,7 @@ CHECKS = {
              "complementary filters partition the collection; counts are counts and percentages are count/size on the documented scale (as binary64 expressions); the all-X loops are "
              "conjunctions; no member is both inferable and inverse-inferable (so non-inferable is always empty); an assumption is tested from its first verification on, valid only "
              "after a verification returned true, and verify returns the function's verdict. The member predicates (total_cmp, truncating 4-decimal comparison, >=, ==) are modelled "
-             "on binary64 with SpecFloat and correspondence-tested on boundary values; the oracle recomputes every aggregate from the member predicates the implementation reports. Collections of more than 65 536 members, one per counted class in which 99 % of the members belong to that class (so that every count passes 65 536), in the Vec container (thorough: all containers). Observation members are also judged against the documented member predicate itself (observation >= threshold and observed_effect == effect, evaluated with the host's IEEE doubles), with both zeros on either side.",
+             "on binary64 with SpecFloat and correspondence-tested on boundary values; the oracle recomputes every aggregate from the member predicates the implementation reports. Collections of more than 65 536 members, one per counted class in which 99 % of the members belong to that class (so that every count passes 65 536), in the Vec container (thorough: all containers). Observation members are also judged against the documented member predicate itself (observation >= threshold and observed_effect == effect, evaluated with the host's IEEE doubles), with both zeros on either side. NaN thresholds and observations are generated.",
         note=LEVEL_NOTE_COMMON + "Axioms: none for all theorems but two: C18_all_satisfy_gives_exactly_100 / C18_none_satisfies_gives_exactly_0 (percentage exactly 100 / 0 for every collection of 1..2^64 members) use Flocq's specification of IEEE division and depend on the standard library's classical real-number axioms ClassicalDedekindReals.sig_not_dec, ClassicalDedekindReals.sig_forall_dec, FunctionalExtensionality.functional_extensionality_dep, Classical_Prop.classic (Print Assumptions; allow-list of this check). binary64 via Coq.Floats.SpecFloat (pure Z arithmetic); NaN payloads not represented.",
         technique="Coq proof (list-level counting laws, induction over verification histories) + differential correspondence on boundary floats + law checker as oracle",
         design="§7 C18"),
@@ -110,7 +110,7 @@ CHECKS = {
              "active / inactive filters are recounts. Correspondence after every call of histories with varying data (flags of every causaloid, all aggregates, call log); oracles: "
              "recount laws on the implementation's own flags, and the singleton law whenever the implementation evaluated the same sequence as the model. Further phases on the implementation's own output "
              "(the Coq model covers add-only, non-empty structures): graphs with causaloids removed and re-added (recount over the live members, freshness of returned indices, reachability, shortest-path reasoning), empty collections; "
-             "activation is read through both routes (is_active and the active() getter).",
+             "activation is read through both routes (is_active and the active() getter). Half of the graphs are built in RECYCLED objects (filled, cleared, rebuilt); a readers-against-evaluator phase (one evaluating thread, three threads that only read is_active) requires the flag to be the verdict just returned.",
         note=LEVEL_NOTE_COMMON + "Axioms: none. Distinct causaloids have distinct activation cells (clones share; the generator builds distinct ones).",
         technique="Coq proof (log/activation invariant by induction on fuel) + differential correspondence after every call + recount oracle",
         design="§7 C11"),
@@ -127,7 +127,7 @@ CHECKS = {
              "the table EQUAL and nothing evaluated or fired, otherwise they act as map insert / delete / replace; evaluating a registered state fires exactly its current action once when the "
              "causaloid evaluates true, nothing when false, and errors (nothing fired) when the evaluation fails, also erroring when the fired action fails; evaluating all states along any "
              "iteration order: success = every state evaluated once and exactly the actions of the true states fired; failure = a successful prefix plus the failing state. The extracted "
-             "checker (proved sound, and proved to accept the model) validates every observed operation, accepting an eval_all outcome iff SOME iteration order of the registered ids yields it. A concurrent phase (two state machines sharing one causaloid, evaluated at the same time on two threads with opposite data, 5*10^5 evaluations) requires that the machine whose data is true fires every time and the other never (stress, schedule chosen by the OS).",
+             "checker (proved sound, and proved to accept the model) validates every observed operation, accepting an eval_all outcome iff SOME iteration order of the registered ids yields it. A concurrent phase (two state machines sharing one causaloid, evaluated at the same time on two threads with opposite data, 5*10^5 evaluations) requires that the machine whose data is true fires every time and the other never (stress, schedule chosen by the OS). RE-ENTRANT evaluation (an action that evaluates another state of its own machine, through eval_single_state and eval_all_states) must behave like any other evaluation (closed-form firing log).",
         note=LEVEL_NOTE_COMMON + "Axioms: none. States / actions are pooled fn items of the harness with observable firing; HashMap iteration order is existentially quantified.",
         technique="Coq proof (map laws, induction over the iteration order, checker soundness) + proved checker applied to every observed operation",
         design="§7 C03"),
